@@ -84,6 +84,9 @@ def musicxml_to_sequence_proto(musicxml_document):
       key_signature.mode = key_signature.MAJOR
     elif musicxml_key.mode == "minor":
       key_signature.mode = key_signature.MINOR
+      # music_proto_keys holds the major tonic of each signature; the tonic of
+      # the minor key with that signature lies a minor third below it.
+      key_signature.key = (key_signature.key + 9) % 12
 
   # Populate tempo changes.
   musicxml_tempos = musicxml_document.get_tempos()
